@@ -4,7 +4,7 @@ package httplog
 // C19, request log lines: with log-http mode none / short-url / url / errors, the line logged for a successful
 // exchange does not depend on the credentials the request carries.
 //
-//vf:assume C19-httplog: non-interference by self-composition: two requests that differ only in the credential part of Proxy-Authorization (the --basic-auth password as a client sends it) and Authorization (the --credentials password as the proxy injects it), each 1..3 symbolic printable bytes, must produce identical log lines; both the structured and the printf-style logger; statuses 200 / 204 / 304; fixed duration, no trace id
+//vf:assume C19-httplog: non-interference by self-composition: two requests that differ only in the credential part of Proxy-Authorization (the --basic-auth password as a client sends it) and Authorization (the --credentials password as the proxy injects it), each 1..3 (quick) / 1..6 (thorough) symbolic printable bytes, must produce identical log lines; both the structured and the printf-style logger; statuses 200 / 204 / 304; fixed duration, no trace id
 
 import (
 	"fmt"
@@ -17,7 +17,11 @@ import (
 )
 
 func vfToken(label string) string {
-	n := 1 + vfrt.Choice(label+"-len", 3)
+	max := 3
+	if vfrt.Thorough() {
+		max = 6
+	}
+	n := 1 + vfrt.Choice(label+"-len", max)
 	s := vfrt.String(label, n)
 	for i := 0; i < n; i++ {
 		vfrt.Assume(s[i] > 0x20)
